@@ -13,6 +13,7 @@ the theorems of Props/C13.lean prove the result independent of it.  Core Lean on
   delDup           util/exec.go DelDupKey (first-seen position, last value)
   checkKV          executor/execenv.go checkKV (key set built from the receipt, every written key looked up)
   mergeInto        executor/localdb.go cacheDB.Merge (`for k, v := range db2.data { db.data[k] = v }`)
+  (pluginBase.flag, the cached enable flag of the global plugin instances, is listed as a site but not modelled)
   findByValue      types/executor.go ExecTypeBase.ActionName (`for k, v := range tm { if v == ty { return k } }`)
 
 `expectedSites` is the committed list of variation sites (regenerated from /repo's current source on every run
@@ -73,6 +74,14 @@ def findByValue {K V : Type} [DecidableEq V] (ty : V) : List (K × V) → Option
 /-! ### the committed site list -/
 
 def expectedSites : List (String × String) := [
+  ("field-write common/db/go_ssdb.go SsdbBench.read SsdbBench.readCount", "benign: latency counters of the ssdb backend (not a configured backend of the execution path), only printed"),
+  ("field-write common/db/go_ssdb.go SsdbBench.read SsdbBench.readNum", "benign: latency counters of the ssdb backend (not a configured backend of the execution path), only printed"),
+  ("field-write common/db/go_ssdb.go SsdbBench.read SsdbBench.readTime", "benign: latency counters of the ssdb backend (not a configured backend of the execution path), only printed"),
+  ("field-write common/db/go_ssdb.go SsdbBench.write SsdbBench.writeCount", "benign: latency counters of the ssdb backend (not a configured backend of the execution path), only printed"),
+  ("field-write common/db/go_ssdb.go SsdbBench.write SsdbBench.writeNum", "benign: latency counters of the ssdb backend (not a configured backend of the execution path), only printed"),
+  ("field-write common/db/go_ssdb.go SsdbBench.write SsdbBench.writeTime", "benign: latency counters of the ssdb backend (not a configured backend of the execution path), only printed"),
+  ("field-write executor/plugin.go pluginBase.checkFlag pluginBase.flag", "history-dependent: process-local copy of the database enable flag kept in the GLOBAL plugin instance (globalPlugins); not modelled - its irrelevance for the emitted KV set is checked by the repeated-execution predicate (enableStat / enableMVCC configurations, warm processes that already executed another genesis, local KV set and database of height 0)"),
+  ("field-write executor/plugin.go pluginBase.checkFlag pluginBase.flag#2", "history-dependent: process-local copy of the database enable flag kept in the GLOBAL plugin instance (globalPlugins); not modelled - its irrelevance for the emitted KV set is checked by the repeated-execution predicate (enableStat / enableMVCC configurations, warm processes that already executed another genesis, local KV set and database of height 0)"),
   ("clock common/db/go_pegasus.go PegasusDB.Get time.Now", "benign: latency logging inside a database backend that is reachable only through the KV interface (not a configured backend of the execution path)"),
   ("clock common/db/go_pegasus.go PegasusDB.Get time.Since", "benign: latency logging inside a database backend that is reachable only through the KV interface (not a configured backend of the execution path)"),
   ("clock common/db/go_pegasus.go PegasusDB.Set time.Now", "benign: latency logging inside a database backend that is reachable only through the KV interface (not a configured backend of the execution path)"),
